@@ -240,6 +240,17 @@ func runC18(o *hx.Out, r *hx.Rand, thorough bool) {
 		}
 		return dm
 	}
+	// the same message types described by descriptors built at run time (from a FileDescriptorProto, as a
+	// parser, server reflection or a descriptor set gives them): distinct descriptor objects, same types
+	rebuilt := func(md *desc.MessageDescriptor) *desc.MessageDescriptor {
+		fd := md.GetFile()
+		fd2, err := desc.CreateFileDescriptor(fd.AsFileDescriptorProto(), fd.GetDependencies()...)
+		if err != nil {
+			panic(err)
+		}
+		return fd2.FindMessage(md.GetFullyQualifiedName())
+	}
+	msgDescRT, trDescRT := rebuilt(msgDesc), rebuilt(trDesc)
 	makers := []maker{
 		{1, false, "grpchantesting.Message", func() interface{} { return randMsg() }},
 		{2, false, "HttpTrailer", func() interface{} { return randTrailer() }},
@@ -251,6 +262,8 @@ func runC18(o *hx.Out, r *hx.Rand, thorough bool) {
 		{6, false, "Empty+unknown", func() interface{} { e := &emptypb.Empty{}; e.ProtoReflect().SetUnknown(unknown()); return e }},
 		{1, true, "dynamic grpchantesting.Message", func() interface{} { return asDyn(msgDesc, randMsg()) }},
 		{2, true, "dynamic HttpTrailer", func() interface{} { return asDyn(trDesc, randTrailer()) }},
+		{1, true, "dynamic grpchantesting.Message (descriptor built at run time)", func() interface{} { return asDyn(msgDescRT, randMsg()) }},
+		{2, true, "dynamic HttpTrailer (descriptor built at run time)", func() interface{} { return asDyn(trDescRT, randTrailer()) }},
 		// sources whose encoding has no bytes at all: copying one must still replace the destination
 		{1, false, "grpchantesting.Message (all fields zero)", func() interface{} { return &hx.Msg{} }},
 		{2, false, "HttpTrailer (all fields zero)", func() interface{} { return &httpgrpc.HttpTrailer{} }},
